@@ -46,7 +46,7 @@ def gen_case(rng, tier, idx):
                       "marketPrice": 100.0}
         cfg["simulation"]["markets"].append("IDX")
         mk.append("IDX")
-    r = rng.choice([0.01, 0.03, 0.1, 0.3])
+    r = rng.choice([0.01, 0.03, 0.1, 0.3, 0.3, 0.75, 1.0, 2.5])
     k = rng.randint(1, len(mk) - 1)
     targets = rng.sample(mk, k)
     cfg["PL"] = {"class": "PriceLimitRule", "targetMarkets": targets, "triggerChangeRate": r}
@@ -59,10 +59,10 @@ def gen_case(rng, tier, idx):
         rules.append("PL2")
     eps = 2.3e-16
     mult = [1 - 3 * r, 1 - 1.5 * r, 1 - r, (1 - r) * (1 - eps), (1 - r) * (1 + eps), 1 - 0.5 * r, 1.0, 1 + 0.5 * r,
-            (1 + r) * (1 - eps), (1 + r) * (1 + eps), 1 + r, 1 + 1.5 * r, 1 + 3 * r, 0.2, 5.0]
+            (1 + r) * (1 - eps), (1 + r) * (1 + eps), 1 + r, 1 + 1.5 * r, 1 + 3 * r, 0.2, 5.0, 0.0]
     for g in range(rng.choice([1, 2])):
         acts = [
-            [6, {"a": "limit", "side": "any", "ref": "p0", "mult": mult, "vol": [1, 5], "ttl": [None, 2, 5],
+            [6, {"a": "limit", "side": "any", "ref": "p0", "mult": mult, "allow_zero": True, "vol": [1, 5], "ttl": [None, 2, 5],
                  "offgrid": rng.choice([0.0, 0.5])}],
             [3, {"a": "limit", "side": "any", "off": [-4, 4], "vol": [1, 5], "ttl": [None, 3]}],
             [1, {"a": "market", "side": "any", "vol": [1, 3], "ttl": [None, 2]}],
